@@ -168,6 +168,7 @@ class Seq(Node):
         self.items = items
         self.alloc: ast.AST | None = None
         self.distinct = False  # built only from the elements of sets / dict keys: no element occurs twice
+        self.sorted = False  # result of sorted(...)
 
     @property
     def elem(self) -> AV:
@@ -270,6 +271,18 @@ class Super(Node):
         self.self_av = self_av
 
 
+class OpCall(Node):
+    """operator.methodcaller / itemgetter / attrgetter object."""
+
+    kind = "opcall"
+
+    def __init__(self, key, what: str, args: list, kwargs: dict) -> None:
+        super().__init__(key)
+        self.what = what
+        self.args = args
+        self.kwargs = kwargs
+
+
 class Opaque(Node):
     kind = "opaque"
 
@@ -343,6 +356,8 @@ def join_env(*envs: "dict | None") -> "dict | None":
         return dict(live[0])
     out: dict[str, AV] = {}
     for k in set().union(*[set(e) for e in live]):
+        if "." in k and not all(k in e for e in live):
+            continue  # local view of an attribute (`self.x`) known on some paths only: fall back to the heap
         out[k] = join(*[e[k] for e in live if k in e])
     return out
 
@@ -737,7 +752,7 @@ class Interp:
     def narrowed(env: dict, facts: list) -> dict:
         out = dict(env)
         for f in facts:
-            if f[0] == "narrow" and f[1] in out:
+            if f[0] == "narrow" and (f[1] in out or "." in f[1]):
                 out[f[1]] = f[2]
         return out
 
@@ -1030,6 +1045,8 @@ class Interp:
     def assign(self, target: ast.expr, v: AV, env: dict, fr: Frame, stmt: ast.AST, value: ast.expr | None) -> None:
         if isinstance(target, ast.Name):
             env[target.id] = v
+            for k in [k for k in env if k.startswith(target.id + ".")]:
+                del env[k]
             if target.id in fr.globals:
                 key = (fr.mod.name, target.id)
                 new = join(self.globals_store.get(key, BOT), v.plain())
@@ -1075,6 +1092,8 @@ class Interp:
                     if new != self.cls_fields.get(key):
                         self.cls_fields[key] = new
                         self.version += 1
+            if isinstance(target.value, ast.Name) and (v.consts or v.top) and not v.refs:
+                env[f"{target.value.id}.{target.attr}"] = v  # scalars only: containers are shared through the heap anyway
         elif isinstance(target, ast.Subscript):
             base = self.ev(target.value, env, fr)
             k = self.ev(target.slice, env, fr) if not isinstance(target.slice, ast.Slice) else TOPV
@@ -1243,9 +1262,10 @@ class Interp:
                 not_none = av.top or bool(av.refs) or any(c.v is not None for c in av.consts) or av.bottom
                 facts = [("absent",) + av.look] if av.look is not None else []
                 pres = [("present",) + av.look] if av.look is not None else []
-                if isinstance(left, ast.Name):
-                    facts = facts + [("narrow", left.id, NONE)]
-                    pres = pres + [("narrow", left.id, replace(av, consts=frozenset(c for c in av.consts if c.v is not None)))]
+                lkey = left.id if isinstance(left, ast.Name) else f"{left.value.id}.{left.attr}" if isinstance(left, ast.Attribute) and isinstance(left.value, ast.Name) else None
+                if lkey is not None:
+                    facts = facts + [("narrow", lkey, NONE)]
+                    pres = pres + [("narrow", lkey, replace(av, consts=frozenset(c for c in av.consts if c.v is not None)))]
                 if isinstance(op, (ast.Is, ast.Eq)):
                     return is_none, not_none, facts, pres
                 return not_none, is_none, pres, facts
@@ -1283,9 +1303,10 @@ class Interp:
         ft, ff = [], []
         if av.look is not None:
             ft, ff = [("present",) + av.look], [("absent-or-empty",) + av.look]
-        if isinstance(e, ast.Name):
-            ft = ft + [("narrow", e.id, replace(av, consts=frozenset(c for c in av.consts if _truthy(c.v))))]
-            ff = ff + [("narrow", e.id, replace(av, consts=frozenset(c for c in av.consts if not _truthy(c.v)), refs=frozenset(n for n in av.refs if isinstance(n, (Seq, Dict, View)))))]
+        nkey = e.id if isinstance(e, ast.Name) else f"{e.value.id}.{e.attr}" if isinstance(e, ast.Attribute) and isinstance(e.value, ast.Name) else None
+        if nkey is not None:
+            ft = ft + [("narrow", nkey, replace(av, consts=frozenset(c for c in av.consts if _truthy(c.v))))]
+            ff = ff + [("narrow", nkey, replace(av, consts=frozenset(c for c in av.consts if not _truthy(c.v)), refs=frozenset(n for n in av.refs if isinstance(n, (Seq, Dict, View)))))]
         return t, f, ft, ff
 
     def compare(self, op: ast.cmpop, a: AV, b: AV) -> AV:
@@ -1902,7 +1923,12 @@ class Interp:
         return None
 
     def e_Attribute(self, e, env, fr):
-        base = self.ev(e.value, env, fr)
+        if isinstance(e.value, ast.Name) and isinstance(e.ctx, ast.Load) and f"{e.value.id}.{e.attr}" in env:
+            return env[f"{e.value.id}.{e.attr}"]
+        return self.attribute(self.ev(e.value, env, fr), e, env, fr)
+
+    def attribute(self, base: AV, e: ast.Attribute, env: dict, fr: Frame) -> AV:
+        """Value of `<base>.<e.attr>` (e is only used for the attribute name, its context and as allocation site)."""
         outs = []
         for n in base.refs:
             if isinstance(n, Rec):
@@ -2055,6 +2081,8 @@ class Interp:
                 outs.append(self.call_function(self.repo.lookup_method(n.cls, "__call__"), [ref(n), *args], kwargs, fr, e, bound=True, star=star))
             elif isinstance(n, Super):
                 outs.append(self.unknown_value("call of super object"))
+            elif isinstance(n, OpCall):
+                outs.append(self.call_opcall(n, args, fr, e, env))
             elif isinstance(n, Partial):
                 outs.append(self.call_value(n.f, [*n.args, *args], {**n.kwargs, **kwargs}, fr, e, tag=("partial", n.key, tag), star=[False] * len(n.args) + list(star or [False] * len(args)), env=env))
             else:
@@ -2064,6 +2092,33 @@ class Interp:
         if not outs:
             return BOT
         return join(*outs)
+
+    def call_opcall(self, n: OpCall, args: list[AV], fr: Frame, e: ast.AST, env: dict | None) -> AV:
+        obj = args[0] if args else BOT
+        if n.what == "itemgetter":
+            got = [self.getitem(obj, k, fr, e, "<itemgetter>") for k in n.args]
+            if len(got) == 1:
+                return got[0]
+            t = self.seq(fr, e, "tuple", ("itemgetter", n.key))
+            t.items = [g.plain() for g in got]
+            return ref(t)
+        names = [a.single().v for a in n.args if a.single() is not None and isinstance(a.single().v, str)]
+        if not names or len(names) != len(n.args if n.what == "attrgetter" else n.args[:1]):
+            return self.unknown_value(f"operator.{n.what} with a non-constant name", obj)
+        if n.what == "attrgetter":
+            got = []
+            for nm in names:
+                cur = obj
+                for part in nm.split("."):
+                    cur = self.attribute(cur, ast.Attribute(value=ast.Constant(value=None), attr=part, ctx=ast.Load()), env or {}, fr)
+                got.append(cur)
+            if len(got) == 1:
+                return got[0]
+            t = self.seq(fr, e, "tuple", ("attrgetter", n.key))
+            t.items = [g.plain() for g in got]
+            return ref(t)
+        meth = self.attribute(obj, ast.Attribute(value=ast.Constant(value=None), attr=names[0], ctx=ast.Load()), env or {}, fr)
+        return self.call_value(meth, list(n.args[1:]), dict(n.kwargs), fr, e, tag=("methodcaller", n.key), env=env)
 
     def construct(self, ci: ClassInfo, args: list[AV], kwargs: dict, fr: Frame, e: ast.AST, tag=None) -> AV:
         r = self.node((fr.ctx, id(e), tag, "rec", ci.fq), lambda: Rec((fr.ctx, id(e), tag, ci.fq), ci))
@@ -2115,8 +2170,7 @@ class Interp:
             for p, v in zip(pos, args):
                 env[p] = v
             if len(args) > len(pos) and a.vararg is not None:
-                s = Seq((nfr.ctx, "vararg"), "tuple")
-                s._elem = join(*args[len(pos) :])
+                s = Seq((nfr.ctx, "vararg"), "tuple", [x.plain() for x in args[len(pos) :]])
                 env[a.vararg.arg] = ref(s)
             elif a.vararg is not None:
                 env[a.vararg.arg] = const(())
@@ -2294,6 +2348,21 @@ class Interp:
             if a0.concrete:
                 return consts(re.escape(v) for v in a0.values())
             return top(a0.prov)
+        if recv is None and args and name.count(".") >= 1:
+            owner, _, meth0 = name.rpartition(".")
+            target = None
+            if owner == "re.Match" and any(isinstance(x, Match) for x in a0.refs):
+                target = "match." + meth0
+            elif owner == "re.Pattern" and any(isinstance(x, Pattern) for x in a0.refs):
+                target = "re.Pattern." + meth0
+            elif owner == "builtins.str" and (a0.consts or a0.top) and not a0.refs:
+                target = "scalar." + meth0
+            elif owner in ("builtins.dict", "builtins.set", "builtins.list", "builtins.frozenset") and a0.refs and name not in ("builtins.dict.fromkeys", "builtins.set.union", "builtins.frozenset.union"):
+                kinds = {x.kind for x in a0.refs}
+                if len(kinds) == 1 and next(iter(kinds)) in ("dict", "set", "list", "frozenset", "tuple"):
+                    target = f"{next(iter(kinds))}.{meth0}"
+            if target is not None:
+                return self.call_lib(Lib(("unbound", target), target, a0), args[1:], kwargs, fr, e, tag, star[1:], env)
         if name.startswith("re.Pattern."):
             how = name[11:]
             pats = [x for x in recv.refs if isinstance(x, Pattern)]
@@ -2344,6 +2413,14 @@ class Interp:
                     outs.append(self.unknown_value(name, *args))
             return join(*outs)
         # ---------------------------------------------------------------- scalars (str / int / tuple constants, abstract strings)
+        if name == "scalar.format_map" and recv.concrete and len(a0.refs) == 1 and isinstance(next(iter(a0.refs)), Dict):
+            d0 = next(iter(a0.refs))
+            if d0.fields and all(v.concrete and len(v.consts) == 1 for v in d0.fields.values()):
+                mapping = {k: v.values()[0] for k, v in d0.fields.items()}
+                try:
+                    return consts(x.format_map(mapping) for x in recv.values())
+                except OP_ERRORS as exc:
+                    self.op_failed(exc)
         if name.startswith("scalar."):
             meth = name[7:]
             outs = []
@@ -2440,6 +2517,28 @@ class Interp:
                     el = self.iterate(el, None, fr, None)
                 self.grow_elem(s, el)
             return ref(s)
+        if name in ("operator.methodcaller", "operator.itemgetter", "operator.attrgetter"):
+            return ref(OpCall((fr.ctx, id(e), name), name.rsplit(".", 1)[1], list(args), dict(kwargs)))
+        if name == "itertools.groupby":
+            keyf = args[1] if len(args) > 1 else kwargs.get("key")
+            el = self.iterate(a0, None, fr, None)
+            s = self.seq(fr, e, "iter", "groupby")
+            if not (el.bottom and not el.prov):
+                kv = self.call_value(keyf, [el], {}, fr, e, tag="groupby-key") if keyf is not None else el
+                grp = self.seq(fr, e, "iter", "groupby-group")
+                self.grow_elem(grp, el)
+                pair = self.seq(fr, e, "tuple", "groupby-pair")
+                # consecutive runs of equal keys: the keys are distinct iff the input is sorted (by a key that refines this one)
+                is_sorted = bool(a0.refs) and all(isinstance(x, Seq) and x.sorted for x in a0.refs)
+                pair.items = [replace(kv.plain(), uniq=("groupby", fr.ctx, id(e))) if is_sorted else kv.plain(), ref(grp)]
+                self.grow_elem(s, ref(pair))
+            return ref(s)
+        if name == "functools.reduce" and len(args) >= 2 and self.unrolled(e, args[1]) is not None and (len(args) > 2 or self.unrolled(e, args[1])):
+            items = self.unrolled(e, args[1])
+            acc = args[2] if len(args) > 2 else items[0]
+            for i, it in enumerate(items if len(args) > 2 else items[1:]):
+                acc = self.call_value(a0, [acc, it], {}, fr, e, tag=("reduce", i))
+            return acc
         if name == "functools.reduce":
             acc = args[2] if len(args) > 2 else BOT
             el = self.iterate(args[1], None, fr, None) if len(args) > 1 else BOT
@@ -2614,8 +2713,17 @@ class Interp:
             if name == "tuple" and a0.concrete and all(isinstance(v, (tuple, str)) for v in a0.values()):
                 return consts(tuple(v) for v in a0.values())
             s = self.seq(fr, e, kind, name)
+            fixed = self.unrolled(e, a0) if name in ("tuple", "list", "iter", "reversed") and args else None
+            if fixed is not None and len(fixed) <= 64 and s._elem.bottom:
+                fixed = list(reversed(fixed)) if name == "reversed" else fixed
+                s.items = [x.plain() for x in fixed] if s.items is None or len(s.items) != len(fixed) else [join(p, q.plain()) for p, q in zip(s.items, fixed)]
+                return replace(ref(s), src=a0.src)
+            if s.items is not None:
+                self.grow_elem(s, join(*s.items))
+                s.items = None
             for a in args[:1]:
                 self.grow_elem(s, self.iterate(a, None, fr, None))
+            s.sorted = name == "sorted"
             s.distinct = bool(a0.refs) and not a0.consts and not a0.top and all((isinstance(x, Seq) and (x.kind in ("set", "frozenset") or x.distinct)) or isinstance(x, Dict) or (isinstance(x, View) and x.kind == "keys") for x in a0.refs)
             return replace(ref(s), src=a0.src)
         if name == "dict":
